@@ -8,7 +8,7 @@ read groups and programs through any pointer the caller may hold — stale ones 
 MergeHeaders, field edits), executed by `step` from the empty world.  `E : Ext` (date and URI parsing) is
 arbitrary.
 -/
-import Hts.Lemmas.HeaderNoPanic
+import Hts.Lemmas.HeaderFrame
 namespace Hts.Props.C07
 open Hts.Model.Header
 
@@ -222,6 +222,19 @@ theorem binary_roundtrip_partial (E : Ext) (w : World) (hw : WInv w) (h : Nat) (
   obtain ⟨w', h1, h2, h3⟩ := binary_roundtrip_view E w hw (view w h) (wfview_of E hw hh api uc) hs1 hs2 hs3
   exact ⟨w', h1, h2, h3, by simp only [marshalText, h3], by simp only [marshalBinary, h3]⟩
 
+/-- framing (used by C05): DecodeBinary reads exactly the header block from the front of a longer stream — on
+`MarshalBinary(h) ++ rest` it yields a header exposing the same values and leaves `rest`; and `decodeBinaryR` is
+`decodeBinary` plus the unread bytes -/
+theorem binary_frame_partial (E : Ext) (w : World) (hw : WInv w) (h : Nat) (hh : h < w.hdrs.length)
+    (api : ApiBuilt E (view w h)) (uc : UriCanon E (view w h))
+    (hs1 : ((marshalText w h).length : Int) < 2147483648) (hs2 : ((view w h).refs.length : Int) < 2147483648)
+    (hs3 : ∀ r ∈ (view w h).refs, (r.2.1.length : Int) + 1 < 2147483648) (rest : Bytes) :
+    (∃ w', decodeBinaryR E (pushHeader w {}) w.hdrs.length (marshalBinary w h ++ rest) = (w', .ok, rest) ∧ WInv w' ∧
+      view w' w.hdrs.length = view w h) ∧
+    ∀ b, ((decodeBinaryR E (pushHeader w {}) w.hdrs.length b).1, (decodeBinaryR E (pushHeader w {}) w.hdrs.length b).2.1) =
+      decodeBinary E (pushHeader w {}) w.hdrs.length b :=
+  ⟨decodeBinaryR_frame E w hw h hh api uc hs1 hs2 hs3 rest, fun b => decodeBinaryR_eq E _ _ b⟩
+
 def binary_roundtrip_full : Prop :=
   ∀ (E : Ext) (w : World), WInv w → ∀ h, h < w.hdrs.length → ApiBuilt E (view w h) →
     ((marshalText w h).length : Int) < 2147483648 → ((view w h).refs.length : Int) < 2147483648 →
@@ -247,6 +260,21 @@ theorem binary_roundtrip_witness : ¬ binary_roundtrip_full := by
   rw [hu, hv, wW_view] at h1
   revert h1; decide
 
+/-! ### the guard "no TAB / LF / CR" of `ApiBuilt` is needed (recorded finding `c07.rt.text.unrepresentable`): a value
+ending in CR (read from a line ending `\\r\\r\\n`) is written back as `…\\r\\n` and read as the value without it; a name
+holding a TAB (SetName / NewReference accept it) makes the header's own text unparsable -/
+
+set_option maxRecDepth 100000 in
+theorem unclean_cr_witness :
+    marshalText (unmarshalText goExt (pushHeader (run goExt {} [.pa (str "@SQ\tSN:a\tLN:10\tAS:x\r\r\n")]) {}) 1
+        (marshalText (run goExt {} [.pa (str "@SQ\tSN:a\tLN:10\tAS:x\r\r\n")]) 0)).1 1 ≠
+      marshalText (run goExt {} [.pa (str "@SQ\tSN:a\tLN:10\tAS:x\r\r\n")]) 0 := by decide
+
+set_option maxRecDepth 100000 in
+theorem unclean_tab_witness :
+    (unmarshalText goExt (pushHeader (run goExt {} [.h0, .nr (str "a\tb") { len := 10 }, .ar 0 0]) {}) 1
+        (marshalText (run goExt {} [.h0, .nr (str "a\tb") { len := 10 }, .ar 0 0]) 0)).2 = .err := by decide
+
 /-! ### non-vacuity of the round-trip theorems (tests): a header with a version, sort order, a reference with MD5,
 URI and an extra tag, a read group with a date in a non-UTC zone and an insert size, a program, a comment with a tab -/
 
@@ -259,6 +287,19 @@ example : ∃ w', unmarshalText goExt (pushHeader wE {}) wE.hdrs.length (marshal
   text_roundtrip_partial goExt wE wE_inv 0 (by decide) wE_api.1 wE_api.2
 set_option maxRecDepth 1000000 in
 example : marshalText wE 0 = exText := by decide
+
+/-- a header built through the API only, with three items of each kind after removals and a rename: ids are 0, 1, 2,
+the hypotheses of the round-trip theorems hold, and so does their conclusion -/
+example : (view wM 0).refs.map (fun x => (x.1, x.2.1)) = [(0, str "a"), (1, str "c"), (2, str "d")] ∧
+    (view wM 0).rgs.map (fun x => (x.1, x.2.1)) = [(0, str "g2"), (1, str "x"), (2, str "g4")] ∧
+    (view wM 0).pgs.map (fun x => x.1) = [0, 1, 2] := by rw [wM_view]; decide
+set_option maxRecDepth 100000 in
+example : ∃ w', decodeBinary goExt (pushHeader wM {}) wM.hdrs.length (marshalBinary wM 0) = (w', .ok) ∧ WInv w' ∧
+    view w' wM.hdrs.length = view wM 0 ∧ marshalText w' wM.hdrs.length = marshalText wM 0 ∧
+    marshalBinary w' wM.hdrs.length = marshalBinary wM 0 :=
+  binary_roundtrip_partial goExt wM wM_inv 0 (by decide) wM_api.1 wM_api.2 (by decide) (by rw [wM_view]; decide)
+    (by rw [wM_view]; intro r hr; simp only [List.mem_cons, List.not_mem_nil, or_false] at hr
+        rcases hr with rfl | rfl | rfl <;> decide)
 
 /-! ### non-vacuity (tests): a history with remove-then-add of the same name, a rename through a stale
 pointer, a clone, parsed text, and a merge of three overlapping headers in which a reference is replaced -/
